@@ -1327,3 +1327,176 @@ Proof.
                          | [X : (_ =? _) = false |- _] => apply Nat.eqb_neq in X end.
   all: split; [intros Hin; apply mem_In in Hin; congruence|auto].
 Qed.
+
+(* ====================================================================================== *)
+(* 14. C02 at trace level: cancellation, then cleanup, then the end of the run call         *)
+(* ====================================================================================== *)
+Lemma canc_only_by_cancelled s e s' p :
+  step s e = Some s' -> p_st (pay s' p) = PCanc -> p_st (pay s p) = PCanc \/ e = Cancelled p.
+Proof.
+  intros H Hs. step_inv H; simp_state; auto.
+  all: try (upd_keep p; simp_state; auto; try congruence; try discriminate; fail).
+  all: try (destruct (flush_st s r p) as [[Hq [_ Hf]]|Hf]; rewrite Hf in *; simp_state; auto; discriminate).
+  all: try (upd_keep p; simp_state; auto; destruct (r_phase (run_ s r)); discriminate).
+Qed.
+
+Lemma clean_only_by_cleanupdone s e s' p :
+  step s e = Some s' -> p_st (pay s' p) = PClean ->
+  p_st (pay s p) = PClean \/ (e = CleanupDone p /\ p_st (pay s p) = PCanc).
+Proof.
+  intros H Hs. step_inv H; simp_state; auto.
+  all: try (upd_keep p; simp_state; auto; try congruence; try discriminate; fail).
+  all: try (destruct (flush_st s r p) as [[Hq [_ Hf]]|Hf]; rewrite Hf in *; simp_state; auto; discriminate).
+  all: try (upd_keep p; simp_state; auto; destruct (r_phase (run_ s r)); discriminate).
+Qed.
+
+Lemma done_only_by_finish s e s' p o :
+  step s e = Some s' -> p_st (pay s' p) = PDone o -> p_st (pay s p) = PDone o \/ e = Finish p o.
+Proof.
+  intros H Hs. step_inv H; simp_state; auto.
+  all: try (upd_keep p; simp_state; auto; try congruence; try discriminate; fail).
+  all: try (destruct (flush_st s r p) as [[Hq [_ Hf]]|Hf]; rewrite Hf in *; simp_state; auto; discriminate).
+  all: try (upd_keep p; simp_state; auto; destruct (r_phase (run_ s r)); discriminate).
+  all: try (upd_keep p; simp_state; auto; injection Hs as <-; auto).
+Qed.
+
+(* what the history of a trace says about a payload's current state *)
+Definition hist_ok (tr : list event) (s : rt) : Prop :=
+  forall p,
+    (p_st (pay s p) = PCanc -> In (Cancelled p) tr) /\
+    (p_st (pay s p) = PClean -> exists a b, tr = a ++ Cancelled p :: b /\ In (CleanupDone p) b) /\
+    (forall o, p_st (pay s p) = PDone o -> In (Finish p o) tr).
+
+Lemma run_snoc s tr e : run s (tr ++ [e]) = match run s tr with Some s1 => step s1 e | None => None end.
+Proof.
+  rewrite run_app. destruct (run s tr) as [s1|]; [|reflexivity]. cbn [run].
+  destruct (step s1 e); reflexivity.
+Qed.
+
+Lemma hist_ok_run tr : forall s, run init tr = Some s -> hist_ok tr s.
+Proof.
+  induction tr as [|e tr IH] using rev_ind; intros s H.
+  - cbn in H. injection H as <-. intros p. cbn. repeat split; intros; discriminate.
+  - rewrite run_snoc in H. destruct (run init tr) as [s1|] eqn:E1; [|discriminate].
+    specialize (IH s1 eq_refl). intros p. destruct (IH p) as [I1 [I2 I3]]. split; [|split].
+    + intros Hc. destruct (canc_only_by_cancelled _ _ _ _ H Hc) as [X| ->].
+      * apply in_or_app. left. auto.
+      * apply in_or_app. right. left. reflexivity.
+    + intros Hc. destruct (clean_only_by_cleanupdone _ _ _ _ H Hc) as [X|[-> X]].
+      * destruct (I2 X) as [a [b [Ha Hb]]]. exists a, (b ++ [e]). split.
+        -- rewrite Ha. rewrite <- app_assoc. reflexivity.
+        -- apply in_or_app. left. exact Hb.
+      * pose proof (I1 X) as Hin. apply in_split in Hin. destruct Hin as [a [b Hab]].
+        exists a, (b ++ [CleanupDone p]). split.
+        -- rewrite Hab. rewrite <- app_assoc. reflexivity.
+        -- apply in_or_app. right. left. reflexivity.
+    + intros o Hd. destruct (done_only_by_finish _ _ _ _ _ H Hd) as [X| ->].
+      * apply in_or_app. left. auto.
+      * apply in_or_app. right. left. reflexivity.
+Qed.
+
+Lemma nstarts_In tr p f tid loop other ok : In (Start p f tid loop other ok) tr -> 1 <= nstarts p tr.
+Proof.
+  induction tr as [|e tr IH]; intros H; [destruct H|]. cbn [nstarts]. destruct H as [->|H].
+  - cbn. rewrite Nat.eqb_refl. lia.
+  - specialize (IH H). lia.
+Qed.
+
+(* THE trace-level statement of C02: when the blocking run call of r ends, every coroutine payload of r
+   that had been started has either finished by itself, or was cancelled and then completed its cleanup,
+   both strictly before the end *)
+Lemma C02_cancel_cleanup_before_end tr1 r o s p f tid loop other ok :
+  run init (tr1 ++ [AcceptEnd r o]) = Some s -> o <> AExclusive ->
+  In (Start p f tid loop other ok) tr1 ->
+  forall s1, run init tr1 = Some s1 ->
+  r_loopkill (run_ s1 r) = false ->
+  p_owner (pay s1 p) = r -> coroutine (p_flav (pay s1 p)) = true -> background s1 p ->
+  (exists o', In (Finish p o') tr1) \/
+  (exists a b, tr1 = a ++ Cancelled p :: b /\ In (CleanupDone p) b).
+Proof.
+  intros H Ho Hin s1 H1 Hk Hown Hc Hb.
+  rewrite run_snoc, H1 in H.
+  destruct (C02_settled_at_end _ _ _ _ _ H1 H Ho Hk p Hown Hc Hb) as [N1 N2].
+  pose proof (nstarts_In _ _ _ _ _ _ _ Hin) as Hn. pose proof (C03_at_most_once _ _ p H1) as Hm.
+  assert (Hst : started (p_st (pay s1 p)) = true) by (apply (C03_started_iff _ _ _ H1); lia).
+  destruct (hist_ok_run _ _ H1 p) as [_ [I2 I3]].
+  destruct (p_st (pay s1 p)) eqn:Est; cbn in Hst; try discriminate; try congruence.
+  - right. apply I2. reflexivity.
+  - left. exists o0. apply I3. reflexivity.
+Qed.
+
+
+(* ====================================================================================== *)
+(* 15. C11: thread payloads stay outside the homes of their runner (invariant)              *)
+(* ====================================================================================== *)
+Lemma thr_mono s e s' t : step s e = Some s' -> In t (thr_tids s) -> In t (thr_tids s').
+Proof.
+  intros H Hin. step_inv H; simp_state; auto. all: right; exact Hin.
+Qed.
+
+(* a home thread only appears through the Start of a coroutine payload on that thread *)
+Lemma home_tid_step s e s' r t :
+  step s e = Some s' ->
+  (home_tid (r_home_aio (run_ s' r)) t = true \/ home_tid (r_home_trio (run_ s' r)) t = true) ->
+  (home_tid (r_home_aio (run_ s r)) t = true \/ home_tid (r_home_trio (run_ s r)) t = true)
+  \/ (exists p f loop other ok, e = Start p f t loop other ok /\ coroutine f = true).
+Proof.
+  intros H Ht. destruct (pay_only e) eqn:Ep.
+  { destruct (frame_runners _ _ _ Ep H) as [Hr _]. rewrite Hr in Ht. auto. }
+  destruct e; cbn in Ep; try discriminate Ep.
+  - destruct (inv_AcceptCall _ _ _ H) as [Hi [[[_ [_ [Hr _]]]|[g [_ [_ [Hr _]]]]] _]]; rewrite Hr in Ht;
+      upd_keep r; auto.
+  - destruct (inv_AcceptEnd _ _ _ _ H) as [Ha [_ [_ Hr]]]. rewrite Hr in Ht. upd_keep r; auto.
+  - destruct (inv_RunningSet _ _ _ H) as [_ [Hr _]]. rewrite Hr in Ht. upd_keep r; auto.
+  - destruct (inv_ShutdownCall _ _ _ _ H) as [_ [_ Hr]]. rewrite Hr in Ht. upd_keep r; auto.
+  - destruct (inv_ShutdownEnd _ _ _ _ H) as [_ [_ [_ Hr]]]. rewrite Hr in Ht. upd_keep r; auto.
+  - destruct (inv_Sigint _ _ H) as [_ Hr]. destruct (guard s); rewrite Hr in Ht; auto. upd_keep r; auto.
+  - (* Start *)
+    step_inv H; simp_state; auto.
+    all: try (upd_keep r; simp_state; auto).
+    all: try (destruct f; simp_state; cbn in *; try discriminate;
+              repeat match goal with [X : _ && _ = true |- _] => apply andb_prop in X; destruct X end;
+              destruct Ht as [Ht|Ht]; auto;
+              try (apply Nat.eqb_eq in Ht; subst; right; eauto 10)).
+  - destruct (inv_Finish _ _ _ _ H) as [_ [_ [_ [_ [_ [_ [_ [[Hr _]|[_ [Hl Hr]]]]]]]]]]; rewrite Hr in Ht; auto.
+    upd_keep r; auto. left. unfold finish_rec in Ht.
+    destruct o; try destruct (p_flav (pay s p)); simp_state; auto;
+      try match type of Ht with context[if ?c then _ else _] => destruct c end; simp_state; auto.
+Qed.
+
+Lemma thr_ok_step s e s' : thr_ok s -> step s e = Some s' -> thr_ok s'.
+Proof.
+  intros I H p Hs Hf Hx.
+  destruct (started (p_st (pay s p))) eqn:Eold.
+  - (* started before: identity data permanent, the thread set only grows, homes only appear on fresh threads *)
+    destruct (started_perm _ _ _ _ H Eold) as [_ [A [B [C [D _]]]]]. rewrite A, D in *. rewrite B in Hf. rewrite C in Hx.
+    destruct (I p Eold Hf Hx) as [I1 [I2 I3]]. split; [eapply thr_mono; eauto|].
+    assert (G : home_tid (r_home_aio (run_ s' (p_owner (pay s p)))) (p_tid (pay s p)) = true \/
+                home_tid (r_home_trio (run_ s' (p_owner (pay s p)))) (p_tid (pay s p)) = true -> False).
+    { intros Ht. destruct (home_tid_step _ _ _ _ _ H Ht) as [[X|X]|[q [f [loop [other [ok [-> Hc]]]]]]]; try congruence.
+      destruct (C11_home_not_a_payload_thread _ _ _ _ _ _ _ _ H Hc) as [N _]. contradiction. }
+    split.
+    + destruct (home_tid (r_home_aio (run_ s' (p_owner (pay s p)))) (p_tid (pay s p))) eqn:E; [exfalso; auto|reflexivity].
+    + destruct (home_tid (r_home_trio (run_ s' (p_owner (pay s p)))) (p_tid (pay s p))) eqn:E; [exfalso; auto|reflexivity].
+  - (* started by this very event *)
+    destruct (started_only_by_start _ _ _ _ H Eold Hs) as [f [tid [loop [other [ok ->]]]]].
+    destruct (inv_Start_pay _ _ _ _ _ _ _ _ H) as [_ [Ef [_ [r [_ [Hu [Hn [_ Hp]]]]]]]].
+    rewrite Hp, upd_same in *. simp_state.
+    assert (Hb : background s p) by (unfold background; exact Hx).
+    rewrite Hf in H.
+    destruct (C11_threads_elsewhere _ _ _ _ _ _ _ H Hb) as [_ [_ [Hin Hhome]]].
+    split; [exact Hin|].
+    assert (Hrun : run_ s' = run_ s).
+    { clear - H. step_inv H; simp_state; try reflexivity; try discriminate. }
+    rewrite Hrun. apply Hhome; auto.
+Qed.
+
+Lemma thr_ok_run tr s : run init tr = Some s -> thr_ok s.
+Proof. intros H. eapply (run_inv thr_ok thr_ok_step); [|exact H]. intros p Hs. discriminate Hs. Qed.
+
+(* invariant form of "thread payloads run outside these two threads" *)
+Lemma C11_threads_outside_homes tr s p :
+  run init tr = Some s -> started (p_st (pay s p)) = true -> p_flav (pay s p) = Thr -> background s p ->
+  home_tid (r_home_aio (run_ s (p_owner (pay s p)))) (p_tid (pay s p)) = false
+  /\ home_tid (r_home_trio (run_ s (p_owner (pay s p)))) (p_tid (pay s p)) = false.
+Proof. intros H A B C. destruct (thr_ok_run _ _ H p A B C) as [_ R]. exact R. Qed.
